@@ -528,10 +528,10 @@ PROPERTIES["C10"]["bounds"]["thorough"] += "; source level: the same with two mo
 
 PROPERTIES["C09"]["runs"] += [dict(pkg="accumulation", files=PIPE_FILES, entry="Harness_P09", args=dict(sample_every=13, max_samples=24))]
 PROPERTIES["C09"]["explanation"] += (" Source level (P09): " + PIPE_EXPL + "plus the REAL affiliation analyzer. An interface with a getter and a setter, a pointer-receiver and a value-receiver implementation (each returning nil or not, "
-    "dereferencing its parameter unchecked or checked), a use() through the interface (unchecked / checked dereference of the result, nil / non-nil argument) and nine conversion shapes (assignment, argument, either in a branch, both, `:=` reusing an interface variable, return, composite literal, append, a decorator struct embedding the interface and converted to another interface); "
+    "dereferencing its parameter unchecked or checked), a use() through the interface (unchecked / checked dereference of the result, nil / non-nil argument) and 17 conversion shapes (assignment, argument, either in a branch, both, `:=` reusing an interface variable, return, composite literal, append, a decorator struct embedding the interface and converted to another interface, explicit conversion, package-level variable, grouped named results, indexed literal element, variadic parameter, append on a named slice type, call through a function-typed variable, forwarded multi-value call); "
     "single package and split (interface and use() in a dependency). The dispatch is evaluated over the opaque flag: panic possible => reported; well-behaved implementations => clean.")
-PROPERTIES["C09"]["bounds"]["quick"] += "; source level: all 1152 programs of the P09 family (nine conversion shapes; 576 single-package, 576 split)"
-PROPERTIES["C09"]["outside"] = [o for o in PROPERTIES["C09"]["outside"]] + ["source level: more than two implementations, embedded structs (other than the decorator), conversions of package-level variables, explicit conversions I(x), variadic interface parameters (sub-agents report NilAway misses several of these; outside this family)"]
+PROPERTIES["C09"]["bounds"]["quick"] += "; source level: all 2176 programs of the P09 family (17 conversion shapes; 1088 single-package, 1088 split)"
+PROPERTIES["C09"]["outside"] = [o for o in PROPERTIES["C09"]["outside"]] + ["source level: more than two implementations, embedded structs (other than the decorator), composite literals of structs of another package, implementations named through a type alias (reported by a sub-agent as missed by NilAway; outside this family)"]
 
 PROPERTIES["C14"]["runs"] += [dict(pkg="accumulation", files=PIPE_FILES, entry="Harness_P14", quick=dict(params=dict(STMTS=2, COMPOUND=5)), thorough=dict(params=dict(STMTS=3, COMPOUND=4, SIMPLE=5)), args=dict(sample_every=61, max_samples=16))]
 PROPERTIES["C14"]["explanation"] += (" Source level (P14): " + PIPE_EXPL + "for every two-package program of the P01X family each diagnostic has a valid position that resolves to an existing line and column of p.go or q.go "
